@@ -196,6 +196,15 @@ def run(tier: str) -> int:
         rep.sample({"a": ["/".join(x["p"]) + ":" + x["k"] + x["v"] for x in e["a"]],
                     "b": ["/".join(x["p"]) + ":" + x["k"] + x["v"] for x in e["b"]],
                     "nodes_in_order": [["/".join(n["p"]), n["st"]] for n in e["nodes"]]})
+        # the consumer the ordering exists for: the packer life cycle on real containers (spec/PackerPipeline.tla)
+        from . import packerpipe as PP
+        rep.rule += ("; the packer life cycle (pack / update of a mirror packer written like packer/example.py, through the packer "
+                     "plugin group, on h5py.File and IH5Record) is model-checked (PackerPipeline.tla: node-wise treatment of the diff in "
+                     "the documented order reproduces the mirror of the new directory for every pair of snapshots, writes only and all "
+                     "of the diff) and validated on real containers (Trace_Packer.tla)")
+        if PP.model(rep, wd, quick):
+            step_ = max(1, len(cases) // (150 if quick else 3000))
+            PP.conformance(rep, wd, quick, rng, pairs=[c for j, c in enumerate(cases) if j % step_ == 0 and c["a"] != c["b"]])
         # binding self-test: a reordered / truncated node list must be rejected
         import copy
         def removed_dir_with_children(e):
